@@ -6,12 +6,16 @@ open BinNums
 open Datatypes
 
 let slug s =
+  (* crash sites are keyed by file and message, not by line number (fix commits move lines) *)
   let b = Buffer.create 40 in
+  let ends_with_go () = let n = Buffer.length b in n >= 3 && Buffer.sub b (n - 3) 3 = "go-" in
+  let skipping = ref false in
   Stdlib.String.iter (fun c ->
     if Buffer.length b < 70 then
       (match c with
-       | 'a'..'z' | 'A'..'Z' | '0'..'9' -> Buffer.add_char b c
-       | _ -> if Buffer.length b > 0 && Buffer.nth b (Buffer.length b - 1) <> '-' then Buffer.add_char b '-')) s;
+       | '0'..'9' when !skipping || ends_with_go () -> skipping := true
+       | 'a'..'z' | 'A'..'Z' | '0'..'9' -> skipping := false; Buffer.add_char b c
+       | _ -> skipping := false; if Buffer.length b > 0 && Buffer.nth b (Buffer.length b - 1) <> '-' then Buffer.add_char b '-')) s;
   Buffer.contents b
 
 let string_of_bytes x = Stdlib.String.concat "" (Stdlib.List.map (fun a -> Stdlib.String.make 1 (Char.chr ((int_of_string (atom a)) land 255))) (lst x))
